@@ -12,6 +12,7 @@ import re
 
 from ..model import AnalysisError, dotted, norm_stmt
 from ..pse import NORMAL, Cfg, Enumerator
+from ..threads import ThreadCfg
 
 LEVEL_TEXT = (
     "Static analysis. Ownership rule: every write of the duplicate-bookkeeping field in the whole package lies in _init/_put/_get "
@@ -47,16 +48,37 @@ def queue_bookkeeping(ctx, RB, RD, RR):
             writes.append((cname or "<module>", mname, norm_stmt(n), f"{m.relpath}:{n.lineno}"))
     if not writes:
         raise AnalysisError("anchor vanished: no write of _last_item anywhere")
+    # a private helper of the queue class counts as part of the primitives if every call of it, anywhere in the package, is made
+    # from a primitive (or from another such helper): it then runs only with the queue's mutex held
+    allowed = set(PRIMS)
+    changed = True
+    while changed:
+        changed = False
+        for h in q.methods:
+            if h in allowed or not h.startswith("_") or h.startswith("__"):
+                continue
+            sites = []
+            for m in P.modules.values():
+                for cn in [n for n in ast.walk(m.tree) if isinstance(n, ast.ClassDef)] + [None]:
+                    fns = [f for f in (cn.body if cn is not None else m.tree.body) if isinstance(f, (ast.FunctionDef, ast.AsyncFunctionDef))]
+                    for f in fns:
+                        for x in ast.walk(f):
+                            if isinstance(x, ast.Call) and isinstance(x.func, ast.Attribute) and x.func.attr == h:
+                                sites.append((cn.name if cn is not None else None, f.name))
+            if sites and all(c_ in P.subclasses("SkipRepeatsQueue") and f_ in allowed for c_, f_ in sites):
+                allowed.add(h)
+                changed = True
+    ctx.extra["mutex_protected_methods"] = sorted(allowed)
     for c, mname, stmt, loc in writes:
         ctx.check(
-            mname in PRIMS and c in P.subclasses("SkipRepeatsQueue"),
+            mname in allowed and c in P.subclasses("SkipRepeatsQueue"),
             RB,
             f"{c}.{mname}: {stmt}",
             f"_last_item written in {c}.{mname}, outside the mutex-protected primitives: a concurrent get()/put() can interleave with it (lost or wrongly dropped events)",
             loc,
         )
 
-    en = Enumerator(Cfg(P))
+    en = Enumerator(ThreadCfg(P, follow_attrs=False))
     # ---- _put / _get delegate once
     for prim, base_call in (("_put", "super()._put"), ("_get", "super()._get"), ("_init", "super()._init")):
         mf = q.methods.get(prim)
@@ -68,7 +90,7 @@ def queue_bookkeeping(ctx, RB, RD, RR):
             if prim == "_get":
                 ctx.viol(RR, "SkipRepeatsQueue._get", "there is no _get override: _last_item is never cleared when its item is dequeued", q.loc)
             continue
-        paths = en.run(mf)
+        paths = en.run(mf, selfcls="SkipRepeatsQueue")
         ok = all(len([e for e in p.evs if e.kind == "call" and e.extra.get("func") == base_call]) == 1 for p in paths)
         ctx.check(ok, RD, f"SkipRepeatsQueue.{prim}", f"{prim} does not call {base_call}() exactly once on every path (an item would be lost or duplicated)", mf.loc)
         if prim == "_put":
@@ -101,27 +123,28 @@ def skip_decision(ctx, RS, q=None):
     P = ctx.P
     field = "_last_item"
     q = q or P.cls("SkipRepeatsQueue")
-    en = Enumerator(Cfg(P))
+    en = Enumerator(ThreadCfg(P, follow_attrs=False))
     pf = q.methods.get("put")
     if pf is None:
         raise AnalysisError("anchor vanished: SkipRepeatsQueue.put")
-    paths = en.run(pf)
+    paths = en.run(pf, selfcls="SkipRepeatsQueue")
     ctx.count("paths", len(paths))
-    names_ok = True
-    for n in ast.walk(pf.node):
-        if isinstance(n, (ast.If, ast.IfExp, ast.While)):
-            used = {dotted(x) for x in ast.walk(n.test) if isinstance(x, (ast.Name, ast.Attribute)) and dotted(x)}
-            used = {u for u in used if u not in ("self",)}
-            if not used <= {"item", f"self.{field}", "None"}:
-                names_ok = False
-    ctx.check(names_ok, RS, "SkipRepeatsQueue.put decision inputs", "the skip decision reads something other than item and _last_item", pf.loc)
+    # decided on the atoms of the enumerated paths (helpers inlined, locals substituted): nothing but item and _last_item
+    pitem = ([a.arg for a in pf.node.args.args if a.arg != "self"] or ["item"])[0]
+    foreign = set()
+    for p in paths:
+        for a in p.conds():
+            names = set(re.findall(r"[A-Za-z_][\w.]*", a)) - {"is", "None", "not", "in", "and", "or"}
+            if not names <= {pitem, f"self.{field}"}:
+                foreign.add(a)
+    ctx.check(not foreign, RS, "SkipRepeatsQueue.put decision inputs", f"the skip decision reads something other than the item and _last_item: {sorted(foreign)[:3]}", pf.loc)
     ok, msg = True, ""
     for p in paths:
         deleg = [e for e in p.evs if e.kind == "call" and e.extra.get("func") == "super().put"]
         a = p.conds().get(f"self.{field} is None")
         b = None
         for k, v in p.conds().items():
-            if re.fullmatch(rf"item == self\.{field}|self\.{field} == item", k):
+            if re.fullmatch(rf"{pitem} == self\.{field}|self\.{field} == {pitem}", k):
                 b = v
         should = (a is True) or (b is False)
         if a is None and b is None:
